@@ -193,6 +193,18 @@ def default_periodic_rule(ctx, rule, p):
         okpt = False
     ctx.expect(okpt, rule, "interpolate_at_points[per-variable period]",
                "each variable's own (period, discontinuity) and the periodic coordinates reach the track interpolation", fpnt.loc())
+    # per-variable / per-column loops: settings never leak from one variable to the next
+    from .fc import carried_locals
+    fdf_ = p.get_function("interpolate.dataframe.interpolate_dataframe_time")
+    for fn_, what in ((fa, "variable"), (fpnt, "variable"), (fdf_, "column")):
+        for lp_ in [n for n in own_walk(fn_.node) if isinstance(n, ast.For) and any(
+                isinstance(c, ast.Call) and call_name(c) in ("NdInterpolator", "interpolate_track_data_arrray", "interpolate_periodic")
+                for c in ast.walk(n))]:
+            leaks = carried_locals(lp_)
+            ctx.expect(not leaks, rule, f"{fn_.name}[per-{what} state]",
+                       f"no local of the per-{what} loop carries a value into the next iteration" if not leaks else
+                       "; ".join(f"`{n}` (line {ln}) keeps the value of an earlier {what} when this one does not assign it" for n, ln in leaks),
+                       fn_.loc(lp_), derived=", ".join(n for n, _ in leaks))
     # data frames
     fdf = p.get_function("interpolate.dataframe.interpolate_dataframe_time")
     src = ast.unparse(fdf.node)
@@ -290,6 +302,28 @@ def run(ctx):
     me = Obj(p.get_class(ND), {"data_periodic_coordinates": {"longitude": sp.Integer(360)}}, "nd")
     ctx.expect(it2.call_function(ndc, [me, "longitude"], {}, None) == 360 and it2.call_function(ndc, [me, "time"], {}, None) is None,
                "R14.1", "NdInterpolator.coordinate_period", "a coordinate is periodic exactly when listed, with its listed period", ndc.loc())
+    # each coordinate is bracketed and weighted with its *own* period: the period handed to the two 1-d helpers is
+    # coordinate_period(<name>) of the very name that selects the targets, not a value found by position in another list
+    nd_i = p.get_method(ND, "interpolate")
+    from .fc import substitute_defs
+    for c in [c for c in calls(nd_i.node) if call_name(c) in ("enclosing_points_1d", "interpolation_weights_1d")]:
+        tgt_fn = fg if call_name(c) == "enclosing_points_1d" else fw
+        b = binding.bind_by_name(tgt_fn, c, False) or {}
+        per_e, x_e = b.get("period"), b.get("x")
+        key = ast.unparse(x_e.slice) if isinstance(x_e, ast.Subscript) else None
+        per_s = substitute_defs(nd_i.node, per_e, {"self"}) if per_e is not None else None
+        own = per_s is not None and key is not None and ast.unparse(per_s) == f"self.coordinate_period({key})"
+        if own:
+            ctx.ok("R14.1", f"NdInterpolator.interpolate[{call_name(c)}: own period]",
+                   "period == coordinate_period(name) for the name that selects the targets", nd_i.loc(c))
+        elif per_s is not None and isinstance(per_s, ast.Subscript):
+            ctx.bad("R14.1", f"NdInterpolator.interpolate[{call_name(c)}: own period]",
+                    "the period is looked up by position in a separately built list; the loop runs over the coordinates in data order, "
+                    "so when that list is in another order (the caller's) a coordinate gets another coordinate's period", nd_i.loc(c),
+                    derived=ast.unparse(per_s), required=f"self.coordinate_period({key})")
+        else:
+            ctx.unsure("R14.1", f"NdInterpolator.interpolate[{call_name(c)}: own period]", "period argument not in a recognised form",
+                       nd_i.loc(c), derived=ast.unparse(per_s) if per_s is not None else "missing")
     ctx.absorb(it)
 
     # ---- R14.2 angular data
